@@ -1,5 +1,5 @@
 (* C04 — every destination receives exactly its configured share. *)
-From C4E Require Import Base Minter Distributor DistrCoins DistrProofs Drift Books DistrNz Ledger LedgerProofs LedgerOrder.
+From C4E Require Import Base Minter Distributor DistrCoins DistrProofs Drift Books DistrNz Ledger LedgerProofs LedgerOrder LedgerUpdates.
 From C4EProps Require C03.
 Open Scope Z_scope.
 
@@ -121,6 +121,17 @@ Theorem C04_credited_amounts_follow_the_share_machine :
   exists w', lrun w ops = Ok w' /\ lwinv Acct bk w' /\ dw_subs w' = dw_subs w /\ forall d, LRep Acct bk d (a_run (dw_subs w) d (st d) ops) w'.
 Proof. exact ledger_refinement. Qed.
 Print Assumptions C04_credited_amounts_follow_the_share_machine.
+
+(* ... also across parameter updates.  A history is a list of segments — a configuration installed by a governance update,
+   then inflows and blocks under it — and the machine is run with the configuration in force.  The account universe is one for
+   the whole history: an id is never shared by accounts of different types, inside one configuration (not K4) or across
+   updates (not K14; `C04_refuted_K14` shows what happens otherwise) *)
+Theorem C04_credited_amounts_follow_the_share_machine_across_parameter_updates :
+  forall Acct bk, acct_universe Acct bk -> forall segs w (st : Z -> aled),
+  lwinv Acct bk w -> Forall (seg_ok Acct) segs -> (forall d, LRep Acct bk d (st d) w) ->
+  exists w', lrun_segs w segs = Ok w' /\ lwinv Acct bk w' /\ forall d, LRep Acct bk d (a_run_segs d (st d) segs) w'.
+Proof. exact segments_refine_ledger. Qed.
+Print Assumptions C04_credited_amounts_follow_the_share_machine_across_parameter_updates.
 
 (* in that machine a named share is credited exactly the truncated fraction of the inflow, and the remainder is reduced by it *)
 Theorem C04_machine_credits_the_truncated_share :
